@@ -92,6 +92,16 @@ def ranking_cases(tier, rng):
                 for _ in range(3 if tier == "quick" else 20):
                     out.append({"src": "generated", "r": [], "naming": "zero", "ne": n, "steps": steps, "complete": c,
                                 "seed": rng.randrange(10 ** 9)})
+    cfgs = ["Borda", "Copeland", "PickAPerm", "KwikSort", "BioConsert", "BioCo", "ParCons", "ExactPulp",
+            "ParCons(b0,BioConsert)"]
+    sch = [ac.P_UNI1, ac.P_UNI5, ac.P_IND1]
+    dss = grids.datasets(3, 2)[::9] + [ac.random_dataset(rng, 6, 5, nmin=2) for _ in range(40 if tier == "quick" else 400)]
+    for k, D in enumerate(dss):
+        for j, cfg in enumerate(cfgs):
+            if cfg in ("ExactPulp", "ParCons") and k % 3:
+                continue
+            out.append({"src": "consensus", "cfg": cfg, "D": D, "sch": list(sch[(k + j) % 3]), "r": [],
+                        "naming": ["ints", "letters"][k % 2], "ne": max(grids.universe(D)), "seed": k, "k": k})
     return out
 
 
